@@ -5,11 +5,12 @@ import Tbx.Proofs.PartitionIDLaws
 import Tbx.Proofs.ChooseUnrank
 import Tbx.Proofs.HuffmanCodes
 import Tbx.Proofs.HuffmanFuel
+import Tbx.Proofs.HuffmanOpt
 /-
 C20 — codes and identifiers: round trips hold and tree-id arithmetic is consistent.
 
 Property theorems only (helper lemmas live in Tbx/Proofs).  Registered in Tbx/Audit/C20.lean.
-Clauses not proved are written at full strength as `def …_statement : Prop` at the end.
+The optimality clauses are written as `def …_statement : Prop` and then proved as theorems of that type.
 -/
 namespace Tbx.Props.C20
 open Tbx
@@ -243,7 +244,7 @@ theorem heap_fuel_sufficient (a : Array Huffman.Tree) (x : Huffman.Tree) (pos ex
 theorem judge_prefixFree_sound (cs : List Spec.Huff.Code) : Spec.Huff.prefixFreeB cs = true ↔ Spec.Huff.PrefixFree cs :=
   Spec.Huff.prefixFreeB_iff cs
 
-/-! ### stated, not proved (P2): optimality -/
+/-! ### optimality (statements first, proofs below) -/
 
 /-- `huffman_minimal`: the code book of either construction has minimal weighted length among all prefix-free
     codes for the table (positive frequencies, distinct symbols; sorted input for the two-queue construction) -/
@@ -260,12 +261,57 @@ def two_queue_eq_heap_cost_statement : Prop :=
     Spec.Huff.cost v bs = Spec.Huff.cost v bu
 
 /-- the judge's reference optimum (repeated merge of the two smallest weights) is the minimum over all
-    prefix-free codes; until this is proved the judge's cost comparison is bounded evidence only -/
+    prefix-free codes -/
 def greedy_cost_optimal_statement : Prop :=
   ∀ (v : List (Nat × Int)), 2 ≤ v.length → (∀ e ∈ v, 1 ≤ e.2) → (v.map (·.1)).Nodup →
     (∀ book' : Huffman.Book, (book'.map (·.1)).Perm (v.map (·.1)) → Spec.Huff.PrefixFree (book'.map (·.2)) →
       Spec.Huff.optCost (v.map (·.2)) ≤ Spec.Huff.cost v book') ∧
     (∃ book' : Huffman.Book, (book'.map (·.1)).Perm (v.map (·.1)) ∧ Spec.Huff.PrefixFree (book'.map (·.2)) ∧
       Spec.Huff.cost v book' = Spec.Huff.optCost (v.map (·.2)))
+
+/-- (a) `greedy_cost_optimal`: justifies the judge's optimum.  Lower bound: prefix-free ⇒ Kraft ⇒ (exchange and
+    merge induction) cost ≥ greedy; attained by the heap construction's code book -/
+theorem greedy_cost_optimal : greedy_cost_optimal_statement := by
+  intro v h2 hpos hnd
+  have hv : v ≠ [] := by intro h; rw [h] at h2; simp at h2
+  have hnn : ∀ e ∈ v, 0 ≤ e.2 := fun e he => by have := hpos e he; omega
+  refine ⟨fun book' hp hf => Huffman.cost_lower_bound v hv hnn hnd book' hp hf, ?_⟩
+  obtain ⟨book, hb, hp⟩ := Huffman.fromUnsorted_all_coded v
+  exact ⟨book, hp, Huffman.fromUnsorted_prefix_free v book hb, Huffman.fromUnsorted_cost v book hnd hb⟩
+
+/-- (b), (c) `huffman_minimal`: the code book of the heap construction, and of the two-queue construction on a
+    sorted table, has minimal weighted length among all prefix-free codes for the table -/
+theorem huffman_minimal : huffman_minimal_statement := by
+  intro v book hpos hnd h book' hp hf
+  have hnn : ∀ e ∈ v, 0 ≤ e.2 := fun e he => by have := hpos e he; omega
+  have hc : Spec.Huff.cost v book = Spec.Huff.optCost (v.map (·.2)) := by
+    rcases h with h | ⟨hs, h⟩
+    · exact Huffman.fromUnsorted_cost v book hnd h
+    · exact Huffman.fromSorted_cost v book hnn hnd hs h
+  rw [hc]
+  by_cases hv : v = []
+  · subst hv
+    have : book' = [] := by
+      have := hp.length_eq
+      simpa using this
+    subst this
+    exact Int.le_refl _
+  · exact Huffman.cost_lower_bound v hv hnn hnd book' hp hf
+
+/-- (d) `two_queue_eq_heap_cost` -/
+theorem two_queue_eq_heap_cost : two_queue_eq_heap_cost_statement := by
+  intro v bs bu hpos hnd hs h1 h2
+  have hnn : ∀ e ∈ v, 0 ≤ e.2 := fun e he => by have := hpos e he; omega
+  rw [Huffman.fromSorted_cost v bs hnn hnd hs h1, Huffman.fromUnsorted_cost v bu hnd h2]
+
+/-- non-vacuity: a sorted table with ties, positive weights and distinct symbols; both constructions return a
+    book of cost 12 = the greedy optimum, and a strictly worse prefix-free code exists -/
+example :
+    let v : List (Nat × Int) := [(0, 1), (1, 1), (2, 2), (3, 2)]
+    (∀ e ∈ v, 1 ≤ e.2) ∧ (v.map (·.1)).Nodup ∧ v.Pairwise (fun a b => a.2 ≤ b.2) ∧
+    (Huffman.fromSorted v).map (Spec.Huff.cost v) = some 12 ∧ (Huffman.fromUnsorted v).map (Spec.Huff.cost v) = some 12 ∧
+    Spec.Huff.optCost (v.map (·.2)) = 12 ∧
+    Spec.Huff.cost v [(0, [true]), (1, [false, true]), (2, [false, false, true]), (3, [false, false, false])] = 15 := by
+  decide
 
 end Tbx.Props.C20
